@@ -10,7 +10,8 @@ package ctxcheck
 //         root=<state root>                      (must be the root the generator saw)
 //         fresh=same|diff:<keys>                 dump(live context) vs dump(NewEpochsContext(spec, state))
 //         reload=none|same|diff:root|diff:<keys> the reload experiment: a second pair made from the SSZ bytes of
-//                                                the live state with a fresh context, fed the same blocks
+//                                                the live state with a fresh context, fed the same blocks; and a
+//                                                third pair (state copy, EpochsContext.Clone()) likewise (diff:clone…)
 //         hyps=ok                                (the Lean side evaluates the step theorems' hypotheses here)
 //         <abbreviated dump of the live context> compared with Lean's incremental model AND Lean's ctxOf(state)
 
@@ -227,7 +228,11 @@ type session struct {
 	liveEpc   *common.EpochsContext
 	shadow    *beacon.StandardUpgradeableBeaconState
 	shadowEpc *common.EpochsContext
-	root      common.Root
+	// a copy of the live state with EpochsContext.Clone() of the live context, made at the same point as the reload
+	// and advanced alongside: clones must stay equal to the original along the same history (and not disturb it)
+	clone    *beacon.StandardUpgradeableBeaconState
+	cloneEpc *common.EpochsContext
+	root     common.Root
 }
 
 func (s *session) report() string {
@@ -244,6 +249,12 @@ func (s *session) report() string {
 			reload = "err"
 		} else if diff := Diff(d, sd); len(diff) > 0 {
 			reload = "diff:" + strings.Join(diff, ",")
+		} else if rootOf(s.clone) != s.root {
+			reload = "diff:clone-root"
+		} else if cd, err := Of(s.spec, s.cloneEpc, s.clone.BeaconState); err != nil {
+			reload = "err"
+		} else if diff := Diff(d, cd); len(diff) > 0 {
+			reload = "diff:clone:" + strings.Join(diff, ",")
 		} else {
 			reload = "same"
 		}
@@ -259,6 +270,9 @@ func (s *session) advance(f func(st *beacon.StandardUpgradeableBeaconState, epc 
 	if s.shadow != nil {
 		if err := f(s.shadow, s.shadowEpc); err != nil {
 			return fmt.Errorf("reloaded pair: %w", err)
+		}
+		if err := f(s.clone, s.cloneEpc); err != nil {
+			return fmt.Errorf("cloned pair: %w", err)
 		}
 	}
 	return nil
@@ -365,6 +379,7 @@ func exec(o hreg.Opts, r *bufio.Scanner, w *bufio.Writer) error {
 					return "err"
 				}
 				s.shadow, s.shadowEpc = &beacon.StandardUpgradeableBeaconState{BeaconState: st2}, epc2
+				s.clone, s.cloneEpc = chain.WrapState(s.live), s.liveEpc.Clone()
 				return "ok"
 			case "genesisfail":
 				return "generator-could-not-build-genesis"
@@ -378,7 +393,7 @@ func exec(o hreg.Opts, r *bufio.Scanner, w *bufio.Writer) error {
 				if s == nil || len(toks) != 1 {
 					return "bad-op"
 				}
-				s.shadow, s.shadowEpc = nil, nil
+				s.shadow, s.shadowEpc, s.clone, s.cloneEpc = nil, nil, nil, nil
 				return "ok"
 			}
 			return "bad-op"
